@@ -173,6 +173,7 @@ type Results struct {
 	Unknown     []string
 	Samples     []string
 	Nontrivial  int
+	Syntactic   int // assertions decided by term normalisation (condition folded to true)
 	Funcs       map[string]int
 	FuncPtr     map[*ssa.Function]int
 	Stubs       map[string]int
